@@ -24,6 +24,7 @@ import (
 	"k8s.io/apimachinery/pkg/runtime"
 	"k8s.io/apimachinery/pkg/runtime/schema"
 	k8stypes "k8s.io/apimachinery/pkg/types"
+	"k8s.io/apimachinery/pkg/util/wait"
 	ctrl "sigs.k8s.io/controller-runtime"
 	"sigs.k8s.io/controller-runtime/pkg/client"
 	"sigs.k8s.io/controller-runtime/pkg/client/fake"
@@ -32,16 +33,23 @@ import (
 
 	aliyunClient "github.com/AliyunContainerService/terway/pkg/aliyun/client"
 	"github.com/AliyunContainerService/terway/pkg/apis/network.alibabacloud.com/v1beta1"
+	"github.com/AliyunContainerService/terway/pkg/backoff"
 	podctl "github.com/AliyunContainerService/terway/pkg/controller/pod"
 	podeni "github.com/AliyunContainerService/terway/pkg/controller/pod-eni"
 	"github.com/AliyunContainerService/terway/pkg/controller/status"
+	"github.com/AliyunContainerService/terway/pkg/eni"
 	"github.com/AliyunContainerService/terway/pkg/vswitch"
 	"github.com/AliyunContainerService/terway/types"
 	"github.com/AliyunContainerService/terway/types/controlplane"
+	"github.com/AliyunContainerService/terway/types/daemon"
 	"github.com/AliyunContainerService/terway/zz_verif/vt"
 )
 
-func init() { ctrl.SetLogger(logr.Discard()) }
+func init() {
+	ctrl.SetLogger(logr.Discard())
+	// the daemon's wait for a usable PodENI (20 x 5 s) is a wall-clock backoff: three quick looks
+	backoff.OverrideBackoff(map[string]wait.Backoff{backoff.WaitPodENIStatus: {Duration: time.Millisecond, Factor: 1, Steps: 3}})
+}
 
 const (
 	c10NS        = "default"
@@ -62,7 +70,11 @@ const (
 	c10AFStatusUpdate
 	c10AFStatusPatch
 	c10AFDelete
-	c10AFBits = 10
+	// every Get of a PodENI that follows a successful Create of a PodENI in the same step fails, and
+	// the step's context is cancelled at the first such failure (controller shutdown / lost lease while
+	// podCreate polls for its new record; the cancellation also keeps the 2 s wall-clock poll short)
+	c10AFReadBack
+	c10AFBits = 11
 )
 
 // ---------------------------------------------------------------- scenario types
@@ -87,7 +99,7 @@ type c10Mid struct {
 }
 
 type c10Op struct {
-	K        string  `json:"k"` // create delete exit gone nodegone nodeback rpod reni gccr gcsec gcmem
+	K        string  `json:"k"` // create delete exit gone nodegone nodeback cniadd rpod reni gccr gcsec gcmem
 	P        int     `json:"p,omitempty"`
 	N        int     `json:"n,omitempty"`
 	CF       uint16  `json:"cf,omitempty"`
@@ -115,12 +127,15 @@ type c10SeedAlloc struct {
 
 // record seeded into the API server (C11 retention / leak GC); its name is pod #P's
 type c10SeedRec struct {
-	P        int            `json:"p"`
-	Phase    string         `json:"phase"`
-	SeenAgo  int            `json:"seen_ago"` // podLastSeen = start - SeenAgo seconds; -1: unset
-	Pod      string         `json:"pod"`      // absent | alive | exited | terminating
-	UIDMatch bool           `json:"uid_match"`
-	Allocs   []c10SeedAlloc `json:"allocs"`
+	P       int    `json:"p"`
+	Phase   string `json:"phase"`
+	SeenAgo int    `json:"seen_ago"` // podLastSeen = start - SeenAgo seconds; -1: unset
+	// metadata.creationTimestamp = start - CreatedAgo seconds (a record is created by ReconcilePod for
+	// a pod that exists, so this is the earliest observation of the pod; never later than podLastSeen)
+	CreatedAgo int            `json:"created_ago"`
+	Pod        string         `json:"pod"` // absent | alive | exited | terminating
+	UIDMatch   bool           `json:"uid_match"`
+	Allocs     []c10SeedAlloc `json:"allocs"`
 }
 
 type c10Scenario struct {
@@ -170,6 +185,7 @@ type c10Snap struct {
 	Allocs   []c10AllocID
 	HasFixed bool
 	LastSeen time.Time
+	Created  time.Time
 }
 
 func (s c10Snap) ident() string {
@@ -206,15 +222,22 @@ type c10World struct {
 	step     int
 	viol     []string
 
-	snaps     map[string]c10Snap
-	gen       map[string]int
-	boundID   map[string]string    // name -> allocation identity at first Bind
-	observed  map[string]time.Time // name -> last gc pass that saw the pod alive
-	released  map[string]bool
-	everRef   map[string]bool // interface id -> some record referenced it at some point
-	pods      []c10PodState
-	nt        bool
-	noGuard   bool
+	snaps    map[string]c10Snap
+	gen      map[string]int
+	boundID  map[string]string    // name -> allocation identity at first Bind
+	observed map[string]time.Time // name -> last gc pass that saw the pod alive
+	released map[string]bool
+	everRef  map[string]bool // interface id -> some record referenced it at some point
+	pods     []c10PodState
+	nt       bool
+	noGuard  bool
+	// per-step state of the read-back fault
+	createdInStep bool
+	afterList     func()
+	stepStart     time.Time
+	stepCancel    context.CancelFunc
+	// CNI ADDs that succeeded: interface id -> pod instance it was handed to
+	added     map[string][2]string
 	nodeTmpl  []*corev1.Node
 	callMark  int
 	faulted   bool // some step of the history had an injected fault
@@ -239,7 +262,7 @@ const c10Nodes = 3 // node-0, node-1: ordinary (trunk-capable when trunk is on);
 
 func c10NewWorld(c *vt.Ctx, s c10Scenario) *c10World {
 	w := &c10World{c: c, s: s, start: time.Now(), seen: map[uint16]bool{}, snaps: map[string]c10Snap{}, gen: map[string]int{},
-		boundID: map[string]string{}, observed: map[string]time.Time{}, released: map[string]bool{}, everRef: map[string]bool{}}
+		boundID: map[string]string{}, observed: map[string]time.Time{}, released: map[string]bool{}, everRef: map[string]bool{}, added: map[string][2]string{}}
 	w.pods = make([]c10PodState, len(s.Pods))
 	w.closed = len(s.SeedENIs) == 0 && len(s.SeedRecs) == 0
 
@@ -369,6 +392,17 @@ func (w *c10World) funcs() interceptor.Funcs {
 				bit = c10AFGetNode
 			case *v1beta1.PodENI:
 				bit = c10AFGetENI
+				w.mu.Lock()
+				readBack := w.af&c10AFReadBack != 0 && w.createdInStep
+				cancel := w.stepCancel
+				w.mu.Unlock()
+				if readBack {
+					if cancel != nil {
+						cancel()
+					}
+					w.c.Label("fault:readback-after-create")
+					return apierrors.NewInternalError(errors.New("injected API read error after create (context cancelled)"))
+				}
 			}
 			if bit != 0 {
 				if err := w.readFault(bit); err != nil {
@@ -383,13 +417,35 @@ func (w *c10World) funcs() interceptor.Funcs {
 					return err
 				}
 			}
-			return c.List(ctx, list, opts...)
+			err := c.List(ctx, list, opts...)
+			if _, ok := list.(*v1beta1.PodENIList); ok && err == nil {
+				// an action that happens after the collector took its snapshot and before it
+				// walks it (the collector lists once, then reads and writes item by item)
+				w.mu.Lock()
+				hook := w.afterList
+				w.afterList = nil
+				w.mu.Unlock()
+				if hook != nil {
+					hook()
+				}
+			}
+			return err
 		},
 		Create: func(ctx context.Context, c client.WithWatch, obj client.Object, opts ...client.CreateOption) error {
 			if err := w.writeFault(c10AFCreate, obj, false); err != nil {
 				return err
 			}
+			if ts := obj.GetCreationTimestamp(); ts.IsZero() {
+				// the API server stamps metadata.creationTimestamp (the fake client does not); wall clock,
+				// like every other time in this harness (there is no virtual clock: ages are "now - D")
+				obj.SetCreationTimestamp(metav1.Now())
+			}
 			err := c.Create(ctx, obj, opts...)
+			if _, ok := obj.(*v1beta1.PodENI); ok && err == nil {
+				w.mu.Lock()
+				w.createdInStep = true
+				w.mu.Unlock()
+			}
 			w.wrote(obj, err)
 			return err
 		},
@@ -448,7 +504,7 @@ func (w *c10World) read(name string) c10Snap {
 
 func c10SnapOf(p *v1beta1.PodENI) c10Snap {
 	s := c10Snap{Present: true, Phase: string(p.Status.Phase), Deleting: !p.DeletionTimestamp.IsZero(), UID: p.Annotations[types.PodUID],
-		Instance: p.Status.InstanceID, LastSeen: p.Status.PodLastSeen.Time}
+		Instance: p.Status.InstanceID, LastSeen: p.Status.PodLastSeen.Time, Created: p.CreationTimestamp.Time}
 	for _, a := range p.Spec.Allocations {
 		f := a.AllocationType.Type == v1beta1.IPAllocTypeFixed
 		s.HasFixed = s.HasFixed || f
@@ -483,6 +539,15 @@ func (w *c10World) observe(name string) {
 		return
 	case !prev.Present && cur.Present:
 		w.gen[name]++
+		if actorK == "rpod" {
+			// ReconcilePod creates a record only for a pod it has just read: the controller observed the pod
+			// no earlier than the start of that reconcile (observations are per pod, harness clock)
+			w.mu.Lock()
+			if o := w.stepStart.Truncate(time.Second); o.After(w.observed[name]) {
+				w.observed[name] = o
+			}
+			w.mu.Unlock()
+		}
 		w.c.Trace("  record %s created gen=%d phase=%q uid=%s allocs=%s", name, w.gen[name], cur.Phase, cur.UID, cur.ident())
 		w.c.Labelf("edge:new>%s", c10PhaseName(cur.Phase))
 		if cur.Phase != "" {
@@ -527,6 +592,15 @@ func (w *c10World) observe(name string) {
 	// C11 (a): the allocations of a record never change
 	if len(prev.Allocs) > 0 && prev.ident() != cur.ident() {
 		w.violate("C11(a): allocations of record %s changed: %s -> %s", name, prev.ident(), cur.ident())
+	}
+	if cur.Phase == "Bind" && prev.Phase != "Bind" && cur.HasFixed && actorK == "reni" {
+		// the PodENI controller attached the interfaces for a pod it has just read: the pod was observed
+		// no earlier than the start of that reconcile (harness clock, not the stored podLastSeen)
+		w.mu.Lock()
+		if o := w.stepStart.Truncate(time.Second); o.After(w.observed[name]) {
+			w.observed[name] = o
+		}
+		w.mu.Unlock()
 	}
 	if cur.Phase == "Bind" && prev.Phase != "Bind" && cur.HasFixed {
 		if id, ok := w.boundID[name]; ok && !w.released[name] {
@@ -592,7 +666,16 @@ func (w *c10World) onPull(kind, eni string) {
 	}
 	w.mu.Lock()
 	actorK := w.actorK
+	holder, handed := w.added[eni]
 	w.mu.Unlock()
+	if handed {
+		// C10 (2), daemon side: the interface was handed to a pod instance by a successful CNI ADD
+		pod := &corev1.Pod{}
+		if err := w.base.Get(context.Background(), k8stypes.NamespacedName{Namespace: c10NS, Name: holder[0]}, pod); err == nil &&
+			string(pod.UID) == holder[1] && !c10Exited(pod) {
+			w.violate("C10(2): %s of %s, which a successful CNI ADD handed to pod %s uid=%s that is still running", kind, eni, holder[0], holder[1])
+		}
+	}
 	w.c.Trace("  cloud %s %s (referenced=%v)", kind, eni, referenced)
 	if !referenced && actorK == "rpod" && kind == "Delete" {
 		// a fault hit between interface creation and record creation: rollback
@@ -821,11 +904,22 @@ func (w *c10World) reconcile(k string, i int) {
 	req := reconcile.Request{NamespacedName: k8stypes.NamespacedName{Namespace: c10NS, Name: c10PodName(i)}}
 	var err error
 	var res reconcile.Result
+	ctx, cancel := context.WithCancel(context.Background())
+	defer cancel()
+	w.mu.Lock()
+	savedCancel, savedCreated, savedStart := w.stepCancel, w.createdInStep, w.stepStart
+	w.stepCancel, w.createdInStep, w.stepStart = cancel, false, time.Now()
+	w.mu.Unlock()
+	defer func() {
+		w.mu.Lock()
+		w.stepCancel, w.createdInStep, w.stepStart = savedCancel, savedCreated, savedStart
+		w.mu.Unlock()
+	}()
 	switch k {
 	case "rpod":
-		res, err = w.rp.Reconcile(context.Background(), req)
+		res, err = w.rp.Reconcile(ctx, req)
 	case "reni":
-		res, err = w.re.Reconcile(context.Background(), req)
+		res, err = w.re.Reconcile(ctx, req)
 	case "gccr":
 		w.re.VerifC10GCCR(context.Background())
 	case "gcsec":
@@ -841,9 +935,10 @@ func (w *c10World) reconcile(k string, i int) {
 }
 
 type c10Pre struct {
-	snap  c10Snap
-	alive bool // pod exists, sandbox not exited
-	uidEq bool
+	podUID string
+	snap   c10Snap
+	alive  bool // pod exists, sandbox not exited
+	uidEq  bool
 }
 
 func (w *c10World) preGC() map[string]c10Pre {
@@ -857,6 +952,7 @@ func (w *c10World) preGC() map[string]c10Pre {
 		pr := c10Pre{snap: c10SnapOf(r)}
 		pod := &corev1.Pod{}
 		if err := w.base.Get(context.Background(), k8stypes.NamespacedName{Namespace: r.Namespace, Name: r.Name}, pod); err == nil {
+			pr.podUID = string(pod.UID)
 			pr.alive = !c10Exited(pod) && w.managed(pod)
 			pr.uidEq = string(pod.UID) == pr.snap.UID
 		}
@@ -878,8 +974,15 @@ func (w *c10World) postGC(pre map[string]c10Pre, t0, t1 time.Time, apiFault bool
 		p := pre[name]
 		post := w.read(name)
 		movedToDeleting := post.Present && post.Phase == "Deleting" && p.snap.Phase != "Deleting"
+		// an action may be interleaved with the pass: the pod counts as alive for the pass only if the
+		// same instance is alive before and after it
+		if q := w.getPodByName(name); p.alive && (q == nil || string(q.UID) != p.podUID || c10Exited(q)) {
+			p.alive = false
+		}
 		if p.alive && p.snap.HasFixed && !apiFault {
-			w.observed[name] = t0.Truncate(time.Second)
+			if o := t0.Truncate(time.Second); o.After(w.observed[name]) {
+				w.observed[name] = o
+			}
 		}
 		if !movedToDeleting {
 			continue
@@ -889,7 +992,14 @@ func (w *c10World) postGC(pre map[string]c10Pre, t0, t1 time.Time, apiFault bool
 			w.violate("C11(b)/C10: gc moved record %s to Deleting while its pod is alive (fixed=%v uid match=%v)", name, p.snap.HasFixed, p.uidEq)
 			continue
 		}
+		// last observation of the pod by the controllers: the record's creation (ReconcilePod creates it
+		// for a pod it has read; metadata.creationTimestamp is API-server data), the stored podLastSeen,
+		// and what the harness saw (record created / bound for the live pod, collector passes while the
+		// pod was alive)
 		last := p.snap.LastSeen
+		if p.snap.Created.After(last) {
+			last = p.snap.Created
+		}
 		if o, ok := w.observed[name]; ok && o.After(last) {
 			last = o
 		}
@@ -910,8 +1020,8 @@ func (w *c10World) postGC(pre map[string]c10Pre, t0, t1 time.Time, apiFault bool
 				if last.Add(d).After(t1) {
 					w.violate("C11(b): gc released record %s %s after the pod was last seen (%s), TTL %s of allocation %s not elapsed",
 						name, t1.Sub(last).Round(time.Second), last.UTC().Format(time.RFC3339), a.After, a.ENI)
-				} else if last.IsZero() {
-					w.c.Label("gc-release:never-seen")
+				} else if p.snap.LastSeen.IsZero() {
+					w.c.Label("gc-release:lastseen-unset-ttl-elapsed-since-creation")
 				}
 			default:
 				w.c.Label("gc-release:strategy-unset")
@@ -939,6 +1049,9 @@ func (w *c10World) runOp(i int, op c10Op) {
 	case "nodegone", "nodeback":
 		w.cloud.beginStep(i, 0, nil)
 		w.nodeOp(op.K, op.N)
+	case "cniadd":
+		w.cloud.beginStep(i, 0, nil)
+		w.cniAdd(op.P)
 	case "rpod", "reni", "gccr", "gcsec", "gcmem":
 		if (op.K == "rpod" || op.K == "reni") && (op.P < 0 || op.P >= len(w.pods)) {
 			return
@@ -949,32 +1062,14 @@ func (w *c10World) runOp(i int, op c10Op) {
 		}
 		var mid func()
 		if m := op.Mid; m != nil && w.midAllowed(op, *m) {
-			mid = func() {
-				w.c.Trace("  [mid] %s p=%d", m.K, m.P)
-				w.c.Label("mid:" + op.K + "/" + m.K)
-				nested := func(k string) {
-					w.mu.Lock()
-					saved := w.actorK
-					w.actorK = k
-					w.mu.Unlock()
-					w.reconcile(k, m.P)
-					w.mu.Lock()
-					w.actorK = saved
-					w.mu.Unlock()
-				}
-				switch m.K {
-				case "rpod", "reni":
-					nested(m.K)
-				case "gone-rpod", "exit-rpod", "delete-rpod", "create-rpod":
-					// the pod leaves (or appears) AND the pod controller reacts, all while the
-					// outer controller is inside its cloud call
-					w.podOp(strings.TrimSuffix(m.K, "-rpod"), m.P, m.N)
-					nested("rpod")
-				default:
-					w.podOp(m.K, m.P, m.N)
-				}
-				w.c.Trace("  [mid end]")
-			}
+			mid = func() { w.runMid(op, *m) }
+		}
+		if op.K == "gccr" {
+			// the collector makes no slot-0 cloud call: its interleaved action runs right after its List
+			w.mu.Lock()
+			w.afterList = mid
+			w.mu.Unlock()
+			mid = nil
 		}
 		w.mu.Lock()
 		w.af = op.AF
@@ -1015,9 +1110,52 @@ func (w *c10World) runOp(i int, op c10Op) {
 	}
 	w.mu.Lock()
 	w.af = 0
+	w.afterList = nil
 	w.mu.Unlock()
 	w.cloud.beginStep(i, 0, nil)
 	w.endStep()
+}
+
+func (w *c10World) nested(k string, p int) {
+	w.mu.Lock()
+	saved := w.actorK
+	w.actorK = k
+	w.mu.Unlock()
+	w.reconcile(k, p)
+	w.mu.Lock()
+	w.actorK = saved
+	w.mu.Unlock()
+}
+
+// runMid executes the action that is interleaved with the outer step op.
+func (w *c10World) runMid(op c10Op, m c10Mid) {
+	w.c.Trace("  [mid] %s p=%d", m.K, m.P)
+	w.c.Label("mid:" + op.K + "/" + m.K)
+	switch m.K {
+	case "rpod", "reni":
+		w.nested(m.K, m.P)
+	case "gone-rpod", "exit-rpod", "delete-rpod", "create-rpod":
+		// the pod leaves (or appears) AND the pod controller reacts, all while the
+		// outer controller is inside its cloud call
+		w.podOp(strings.TrimSuffix(m.K, "-rpod"), m.P, m.N)
+		w.nested("rpod", m.P)
+	case "cycle":
+		// a whole incarnation passes: the pod is recreated, both controllers run until the record
+		// is bound again, the pod leaves and the controllers wind the record down
+		w.podOp("create", m.P, m.N)
+		for r := 0; r < 4; r++ {
+			w.nested("rpod", m.P)
+			w.nested("reni", m.P)
+		}
+		w.podOp("gone", m.P, m.N)
+		for r := 0; r < 2; r++ {
+			w.nested("rpod", m.P)
+			w.nested("reni", m.P)
+		}
+	default:
+		w.podOp(m.K, m.P, m.N)
+	}
+	w.c.Trace("  [mid end]")
 }
 
 // a mid action is only used where it keeps the run deterministic and realistic: the
@@ -1027,9 +1165,10 @@ func (w *c10World) midAllowed(op c10Op, m c10Mid) bool {
 	if m.P < 0 || m.P >= len(w.pods) {
 		return false
 	}
-	switch op.K {
-	case "gccr":
+	if m.K == "cycle" && op.K != "gccr" {
 		return false
+	}
+	switch op.K {
 	case "rpod", "reni":
 		if len(w.s.Pods[op.P].Nets) != 1 {
 			return false
@@ -1247,4 +1386,70 @@ func (w *c10World) endState() {
 			w.c.Label("end:other")
 		}
 	}
+}
+
+// ---------------------------------------------------------------- node daemon side (pkg/eni/remote.go)
+
+// cniAdd plays the node daemon serving a CNI ADD for the current instance of pod #i through the
+// real Remote.Allocate (the daemon's wait for a usable PodENI record). The control plane is idle
+// during the wait (steps are sequential); the wait's backoff is shortened through
+// backoff.OverrideBackoff in init().
+func (w *c10World) cniAdd(i int) {
+	if i < 0 || i >= len(w.pods) {
+		return
+	}
+	pod := w.getPod(i)
+	if pod == nil {
+		w.c.Label("skip:cniadd")
+		return
+	}
+	var trunk *daemon.ENI
+	if w.nodeTrunkClass(w.pods[i].node) {
+		trunk = &daemon.ENI{ID: c10TrunkID(w.pods[i].node), MAC: "00:16:3e:aa:aa:aa", Trunk: true}
+	}
+	r := eni.NewRemote(w.base, trunk)
+	ctx, cancel := context.WithTimeout(context.Background(), 10*time.Second)
+	defer cancel()
+	ch, _ := r.Allocate(ctx, &daemon.CNI{PodName: pod.Name, PodNamespace: pod.Namespace, PodID: pod.Namespace + "/" + pod.Name, PodUID: string(pod.UID)}, &eni.RemoteIPRequest{})
+	if ch == nil {
+		panic("harness: Remote.Allocate refused a RemoteIP request")
+	}
+	var resp *eni.AllocResp
+	select {
+	case resp = <-ch:
+	case <-ctx.Done():
+		w.c.Inconclusive("Remote.Allocate did not answer within 10 s")
+	}
+	if resp.Err != nil {
+		w.c.Trace("  CNI ADD %s uid=%s -> error: %v", pod.Name, pod.UID, resp.Err)
+		w.c.Label("cniadd:refused")
+		return
+	}
+	// an ADD that succeeds returns the interfaces of a record that is Bind for exactly this pod instance
+	rec := w.read(pod.Name)
+	w.c.Trace("  CNI ADD %s uid=%s -> ok (record phase=%q uid=%s)", pod.Name, pod.UID, rec.Phase, rec.UID)
+	w.c.Label("cniadd:ok")
+	if !rec.Present || rec.Deleting || rec.Phase != "Bind" || rec.UID != string(pod.UID) {
+		w.c.Fatalf("C10(2)/remote: step %d: CNI ADD for pod %s uid=%s succeeded but its record is present=%v phase=%q uid=%s deleting=%v",
+			w.step, pod.Name, pod.UID, rec.Present, rec.Phase, rec.UID, rec.Deleting)
+	}
+	if len(resp.NetworkConfigs) == 0 {
+		w.c.Fatalf("C10(2)/remote: step %d: CNI ADD for pod %s uid=%s succeeded without any network resource", w.step, pod.Name, pod.UID)
+	}
+	want := map[string]bool{}
+	for _, a := range rec.Allocs {
+		want[a.V4] = true
+	}
+	for _, nr := range resp.NetworkConfigs {
+		for _, nc := range nr.ToRPC() {
+			if nc.BasicInfo == nil || nc.BasicInfo.PodIP == nil || !want[nc.BasicInfo.PodIP.IPv4] {
+				w.c.Fatalf("C10(2)/remote: step %d: CNI ADD for pod %s returned an address that is not in its record %s", w.step, pod.Name, rec.ident())
+			}
+		}
+	}
+	w.mu.Lock()
+	for _, a := range rec.Allocs {
+		w.added[a.ENI] = [2]string{pod.Name, string(pod.UID)}
+	}
+	w.mu.Unlock()
 }
